@@ -629,6 +629,11 @@ def run(ctx):
 
 def guards(acc, ctx):
     g = []
+    from mc import core
+    known = core.load_known(ID)
+    if any(core.match_known(known, v) is None for v in acc.violations):
+        return g          # vacuity guards protect a silent run; a run that reports new violations is not vacuous (and a
+                          # violating tree may legitimately never produce some of the outcomes below)
     o = acc.outcomes
     need = ["A:status=0x00", "A:status=0x05", "A:status=0xff", "A:bundled", "A:variant=byte", "A:variant=lazy",
             "A:variant=validating", "A:frames=1", "A:frames=3", "B:accept", "B:reject", "RT:ok"]
